@@ -106,7 +106,44 @@ def build_op(spec):
             kw["control_values"] = spec[3]
         return qp.ctrl(build_op(spec[1]), control=spec[2], **kw)
     name, wires, params = spec
+    if params and isinstance(params[0], dict):  # array-valued parameter, see array_param
+        return getattr(qp, name)(array_param(name, len(wires), params[0]), wires=wires)
     return getattr(qp, name)(*params, wires=wires)
+
+
+def array_param(name, k, a):
+    """Array-valued operator parameter from {"seed": s, "bumps": [[i, delta], ...]}: a seeded unitary /
+    phase vector / state vector of k wires; a bump rotates rows (entries) i, i+1 by the angle delta, so the
+    result stays a valid parameter and differs from the unbumped one only in those rows (entries)."""
+    import math
+
+    import numpy as np
+
+    g = np.random.Generator(np.random.PCG64(a["seed"]))
+    d = 2**k
+    bumps = a.get("bumps", [])
+    if name == "QubitUnitary":
+        q, _ = np.linalg.qr(g.normal(size=(d, d)) + 1j * g.normal(size=(d, d)))
+        for i, dl in bumps:
+            i = i % (d - 1)
+            c, sn = math.cos(dl), math.sin(dl)
+            r0, r1 = q[i].copy(), q[i + 1].copy()
+            q[i], q[i + 1] = c * r0 - sn * r1, sn * r0 + c * r1
+        return q
+    if name == "DiagonalQubitUnitary":
+        ph = g.uniform(-3, 3, size=d)
+        for i, dl in bumps:
+            ph[i % d] += dl
+        return np.exp(1j * ph)
+    if name == "StatePrep":
+        v = g.normal(size=d) + 1j * g.normal(size=d)
+        v = v / np.linalg.norm(v)
+        for i, dl in bumps:
+            i = i % (d - 1)
+            c, sn = math.cos(dl), math.sin(dl)
+            v[i], v[i + 1] = c * v[i] - sn * v[i + 1], sn * v[i] + c * v[i + 1]
+        return v
+    raise ValueError(name)
 
 
 def op_wires(spec):
@@ -137,6 +174,8 @@ def map_obs_wires(spec, wmap):
         return ["L", [[c, w, [wmap[x] for x in ws]] for c, w, ws in spec[1]]]
     if k == "Proj":
         return ["Proj", spec[1], [wmap[w] for w in spec[2]]]
+    if k in ("HB", "SPH"):
+        return [k, spec[1], [wmap[w] for w in spec[2]], spec[3]]
     raise ValueError(k)
 
 
@@ -182,6 +221,25 @@ def build_obs(spec):
         return qp.sum(*[qp.s_prod(c, _word(w, ws)) for c, w, ws in spec[1]])
     if kind == "Proj":
         return qp.Projector(spec[1], wires=spec[2])
+    if kind == "HB":  # large dense Hermitian with symmetric bumps: ["HB", seed, wires, [[i, delta], ...]]
+        m = hermitian_matrix(spec[1], len(spec[2]))
+        d = m.shape[0]
+        for i, dl in spec[3]:
+            i, j = i % d, (i + 1) % d
+            m[i, j] += dl
+            m[j, i] += dl
+        return qp.Hermitian(m, wires=spec[2])
+    if kind == "SPH":  # sparse Hamiltonian (diagonal plus nearest-neighbour couplings), bumps on the diagonal
+        import numpy as np
+        import scipy.sparse as sp
+
+        d = 2 ** len(spec[2])
+        g = np.random.Generator(np.random.PCG64(spec[1]))
+        diag = g.normal(size=d)
+        off = g.normal(size=d - 1) * (g.random(size=d - 1) < 0.5)
+        for i, dl in spec[3]:
+            diag[i % d] += dl
+        return qp.SparseHamiltonian(sp.csr_matrix(sp.diags([diag, off, off], [0, 1, -1])), wires=spec[2])
     if kind == "SP":  # scaled Pauli word, e.g. -1.0 * (Z(0) @ Z(1))
         return qp.s_prod(spec[1], _word(spec[2], spec[3]))
     if kind == "HM":  # Hermitian given by a named involutory matrix (eigenvalues +-1, sorted by eigh)
@@ -236,6 +294,8 @@ def to_jsonable(x):
     if isinstance(x, (list, tuple)):
         return [to_jsonable(v) for v in x]
     if hasattr(x, "shape") or isinstance(x, np.generic):
+        if hasattr(x, "detach"):
+            x = x.detach()
         a = np.asarray(x)
         if np.iscomplexobj(a):
             return {"re": a.real.tolist(), "im": a.imag.tolist()}
